@@ -160,6 +160,9 @@ def clause_a(repo, chk):
             pairs = index_set(fn) if False else None
             continue
         found = {}
+        # the gradient formula is whatever local ends up in a gradient table (g_fitFrac[..] = X, err_fitFrac[..] = X, g_fit_frac[..] = X)
+        grad_locals = {st.value.id for st in walk_local(fn.node) if isinstance(st, ast.Assign) and isinstance(st.targets[0], ast.Subscript)
+                       and norm_text(st.targets[0].value) in (grads | {"err_fitFrac"}) and isinstance(st.value, ast.Name)}
         # classify assignments by whether they sit on the i == j side
         def collect(stmts, kind):
             for st in stmts:
@@ -189,14 +192,16 @@ def clause_a(repo, chk):
                         continue
                     if tname in fracs:
                         found[(k, "frac")] = st.value
-                    elif tname == "gij":
+                    elif isinstance(t, ast.Name) and t.id in grad_locals:
                         found[(k, "grad")] = st.value
+                    elif (tname in grads or tname in ("err_fitFrac",)) and not isinstance(st.value, ast.Name):
+                        found.setdefault((k, "grad"), st.value)
         collect(fn.node.body, None)
         need = [("diag", "frac"), ("off", "frac")] + ([("diag", "grad"), ("off", "grad")] if has_grad else [])
         for k in need:
             if k not in found:
                 raise AnalysisError("%s: %s %s formula not found" % (key, k[0], k[1]))
-            expr = InlineLocals(fn, {"int_tmp", "int_mc", "g_int_tmp", "g_int_mc", "gij", "i", "j"} | fracs | grads).visit(copy.deepcopy(found[k]))
+            expr = InlineLocals(fn, {"int_tmp", "int_mc", "g_int_tmp", "g_int_mc", "i", "j"} | fracs | grads).visit(copy.deepcopy(found[k]))
             expr = Rename(fracs, grads).visit(expr)
             ast.fix_missing_locations(expr)
             try:
@@ -278,7 +283,7 @@ def clause_b(repo, chk):
                 src = n.value
         ok_src = False
         if src is not None:
-            comp = [x for x in ast.walk(src) if isinstance(x, ast.ListComp)]
+            comp = [x for x in ast.walk(src) if isinstance(x, (ast.ListComp, ast.GeneratorExp))]
             if comp:
                 c = comp[0]
                 g = c.generators[0]
@@ -386,27 +391,8 @@ def check_selection_map(repo, chk, fn):
 
 def clause_c(repo, chk):
     """selection by resonance name visits every chain; fit-fraction accumulators are reset per integral"""
-    chk.rule("C-select", "DecayGroup.set_used_res visits every chain when it maps resonance names to chains (no break/continue/return in the loops over self.chains / the resonance map)")
     chk.rule("C-accum", "every accumulator that FitFractions.append_int adds to is reset by init_res_table, and integral() calls init_res_table before accumulating (results do not depend on earlier calls)")
     fn = repo.fn("%s::DecayGroup.set_used_res" % CORE)
-    loops = [n for n in walk_local(fn.node) if isinstance(n, ast.For)]
-    n_chain_loops = 0
-    for lp in loops:
-        it = norm_text(lp.iter)
-        if "self.chains" in it or "res_map" in it:
-            n_chain_loops += 1
-            esc = [x for st in lp.body for x in ast.walk(st) if isinstance(x, (ast.Break, ast.Continue, ast.Return))]
-            # an escape that belongs to a nested loop is that loop's business
-            own = []
-            for x in esc:
-                inner = [l2 for l2 in ast.walk(lp) if isinstance(l2, ast.For) and l2 is not lp and any(y is x for y in ast.walk(l2))]
-                if not inner:
-                    own.append(x)
-            chk.instance("C-select", "set_used_res: loop `for %s in %s` runs over all elements (no break/continue): %s" % (norm_text(lp.target), it, not own))
-            if own:
-                chk.violation("C-select", fn.key, "loop:%s" % it, "the loop over `%s` is left early (%s at line %d): a resonance that occurs in several chains selects only the first" % (it, type(own[0]).__name__.lower(), own[0].lineno), file=CORE, line=own[0].lineno)
-    if n_chain_loops < 2:
-        chk.info("C-select: set_used_res no longer written as loops over self.chains / res_map; decided by C-selmap alone")
     check_selection_map(repo, chk, fn)
     # accumulators
     cls = repo.cls("%s::FitFractions" % FF)
@@ -424,13 +410,32 @@ def clause_c(repo, chk):
             base = n.targets[0].value
             if isinstance(base, ast.Attribute) and isinstance(base.value, ast.Name) and base.value.id == "self" and norm_text(n.targets[0]) in norm_text(n.value):
                 acc.add(base.attr)
-    reset = set()
-    for n in walk_local(ini.node):
-        if isinstance(n, ast.Assign):
-            t = n.targets[0]
-            base = t.value if isinstance(t, ast.Subscript) else t
-            if isinstance(base, ast.Attribute) and isinstance(base.value, ast.Name) and base.value.id == "self":
-                reset.add(base.attr)
+    # what init_res_table leaves behind, by interpretation (helpers it calls are inlined): every accumulator is zero
+    from ..sym import SelfObj
+
+    tr = Translator(repo, hooks={"allow_attr_store": True, "concrete_zeros": True, "stack_as_array": True}, max_depth=4)
+    # start from accumulators that already hold something (a previous integral)
+    dirty = sp.Symbol("previous")
+    so = SelfObj(cls, {"res": ["a", "b"], "n_var": sp.Integer(2), "cached_int": {"a": dirty, "b": dirty, ("b", "a"): dirty}, "cached_grad": {"a": dirty, "b": dirty, ("b", "a"): dirty},
+                       "cached_int_total": dirty, "cached_grad_total": dirty})
+    try:
+        tr.call_fn(ini, [], self_obj=so)
+    except Unmodelled as e:
+        raise AnalysisError("FitFractions.init_res_table not interpretable: %s" % e)
+
+    def is_zero(v):
+        import numpy as _np
+
+        if isinstance(v, dict):
+            return bool(v) and all(is_zero(x) for x in v.values())
+        if isinstance(v, _np.ndarray):
+            return all(sp.sympify(x) == 0 for x in v.reshape(-1))
+        try:
+            return sp.sympify(v) == 0
+        except Exception:
+            return False
+
+    reset = {a for a in so.attrs if a not in ("res", "n_var") and is_zero(so.attrs[a])}
     first_calls = [norm_text(x.func) for st in integ.node.body for x in ast.walk(st) if isinstance(x, ast.Call) and isinstance(x.func, ast.Attribute) and isinstance(x.func.value, ast.Name) and x.func.value.id == "self"]
     order_ok = "self.init_res_table" in first_calls and "self.append_int" in first_calls and first_calls.index("self.init_res_table") < first_calls.index("self.append_int")
     chk.instance("C-accum", "append_int accumulates into %s; init_res_table resets %s; integral resets first: %s" % (sorted(acc), sorted(reset), order_ok))
